@@ -24,7 +24,7 @@ UNIT_TIMEOUT = {"quick": 150, "thorough": 2400}
 COMMON = dict(
     p_item_fault=0.03,
     p_wrap=0.7,
-    w_stmt=dict(raise_=0.15),
+    w_stmt=dict(raise_=0.15, syncitem=0.5),
     w_leaf=dict(err=0.15, junk=0.05, lazy=0.4),
     lazy_modes=["ok", "ok", "ok", "raise"],
     p_try_raise=0.35,
@@ -33,7 +33,7 @@ PROFILE_A = gen.profile(p_shared=0.6, **COMMON)
 PROFILE_B = gen.profile(
     p_shared=0.0,
     ctxs=["ov", "ov", "attr", "actx"],
-    **dict(COMMON, w_stmt=dict(raise_=0.15, read=2.5, with_=2.2))
+    **dict(COMMON, w_stmt=dict(raise_=0.15, read=2.5, with_=2.2, syncitem=0.5))
 )
 HOWS = ["call", "value", "yielded", "yielded_value"]
 MONITORS = ("refeq", "restore")
